@@ -65,6 +65,52 @@ def variant_index(facts, adt, name):
     return None
 
 
+def caller_constants(body):
+    """{parameter local: ('variant', adt, 'None')} for the Option parameters of a crate-private function to which EVERY call site in the
+    crate passes the constant None (e.g. replace_node's `new_value`: no public path replaces through it) -- paths on which such a
+    parameter is Some are infeasible, and the typestate rules need not judge them"""
+    cached = getattr(body, "_caller_constants", None)
+    if cached is not None:
+        return cached
+    out = {}
+    facts = body.facts
+    if body.kind != "Closure" and not body.exported:
+        from .callgraph import callgraph
+        from .facts import op_root
+        sites = [(cid, via) for cid, via in callgraph(facts).callers(body.id) if hasattr(via, "point") and hasattr(via, "args")]
+        sites = [(cid, via) for cid, via in sites if not facts.by_id[cid].is_cleanup(via.b) and via.resolved == body.id]
+        for k in range(1, body.nargs + 1):
+            ty = body.ty(k)
+            if not ty["head"].endswith("option::Option") or not sites:
+                continue
+            allnone = True
+            for cid, via in sites:
+                g = facts.by_id[cid]
+                if k - 1 >= len(via.args) or op_root(via.args[k - 1]) is None:
+                    allnone = False
+                    break
+                vs, seen, stack = set(), set(), [op_root(via.args[k - 1])]
+                while stack:
+                    x = stack.pop()
+                    if x in seen:
+                        continue
+                    seen.add(x)
+                    for kind, data, pt in flow(g).sources(x):
+                        if kind == "agg" and "adt" in data["rv"]["agg"]:
+                            vs.add(data["rv"]["agg"]["variant"])
+                        elif kind == "copy":
+                            stack.append(data)
+                        else:
+                            vs.add("?")
+                if vs != {"None"}:
+                    allnone = False
+                    break
+            if allnone:
+                out[k] = ("variant", ty.get("base") or "std::option::Option", "None")
+    body._caller_constants = out
+    return out
+
+
 class Esp:
     def __init__(self, body, spec, extra_flags=()):
         self.body = body
@@ -293,7 +339,10 @@ class Esp:
         init_ts = init_ts if init_ts is not None else spec.initial()
         dq = deque()
         self._queued = set()
-        self._merge(start, init_ts, dict(init_env or {}), dq)
+        env0 = dict(caller_constants(body))
+        env0.update(init_env or {})
+        self.flags |= set(env0)
+        self._merge(start, init_ts, env0, dq)
         steps = 0
         while dq:
             pt, skey = dq.popleft()
